@@ -140,6 +140,9 @@ func (x *Exec) autoInvariant(st *State, fn *ssa.Function, l *Loop) string {
 
 func (x *Exec) loopEntry(st *State, fn *ssa.Function, l *Loop) bool {
 	key := x.loopKey(fn, l)
+	if ghostInt(st, "go.pendingAdds") != 0 {
+		x.emit(st, "go", "loop"+key+":unmatched-add", "false", "wg.Add without a spawned goroutine at a loop head")
+	}
 	lc := x.loopContract(fn, l)
 	env := x.loopEnv(st, fn, l)
 	if lc != nil {
@@ -178,6 +181,9 @@ func (x *Exec) loopEntry(st *State, fn *ssa.Function, l *Loop) bool {
 
 func (x *Exec) loopBackEdge(st *State, fn *ssa.Function, l *Loop) {
 	key := x.loopKey(fn, l)
+	if ghostInt(st, "go.pendingAdds") != 0 {
+		x.emit(st, "go", "loop"+key+":unmatched-add", "false", "wg.Add without a spawned goroutine at a loop back edge")
+	}
 	lc := x.loopContract(fn, l)
 	env := x.loopEnv(st, fn, l)
 	if lc != nil {
@@ -212,6 +218,7 @@ func (x *Exec) havocLoop(st *State, fn *ssa.Function, l *Loop, lc *LoopContract)
 	cells := map[*ssa.Alloc]bool{}
 	arrays := map[string]string{}
 	allHeap := false
+	hasGo, hasSend, hasMayPanic := false, false, false
 	logged := map[string]bool{}
 	seenFn := map[*ssa.Function]bool{}
 	var scanBlocks func(f *ssa.Function, blocks []*ssa.BasicBlock, inBody func(*ssa.BasicBlock) bool)
@@ -301,6 +308,17 @@ func (x *Exec) havocLoop(st *State, fn *ssa.Function, l *Loop, lc *LoopContract)
 			}
 			for _, ins := range b.Instrs {
 				switch ins := ins.(type) {
+				case *ssa.Go:
+					hasGo = true
+					if mc, ok := ins.Call.Value.(*ssa.MakeClosure); ok {
+						cf := mc.Fn.(*ssa.Function)
+						if !seenFn[cf] {
+							seenFn[cf] = true
+							scanBlocks(cf, cf.Blocks, func(*ssa.BasicBlock) bool { return true })
+						}
+					}
+				case *ssa.Send:
+					hasSend = true
 				case *ssa.Store:
 					noteStore(ins.Addr)
 				case *ssa.MapUpdate:
@@ -340,6 +358,9 @@ func (x *Exec) havocLoop(st *State, fn *ssa.Function, l *Loop, lc *LoopContract)
 							if fc.Logged {
 								logged[lastName(full)] = true
 							}
+							if fc.MayPanic {
+								hasMayPanic = true
+							}
 							for _, ms := range fc.ModSrc {
 								x.noteModArrays(nil, fc, ms, arrays, &allHeap)
 							}
@@ -376,6 +397,12 @@ func (x *Exec) havocLoop(st *State, fn *ssa.Function, l *Loop, lc *LoopContract)
 						if fc != nil {
 							if fc.Logged {
 								logged[lastName(strings.ReplaceAll(callee.String(), x.P.ModPath+"/", ""))] = true
+							}
+							if fc.MayPanic {
+								hasMayPanic = true
+							}
+							for _, cn := range fc.CallsDecl {
+								logged[x.callKey(st, cn)] = true
 							}
 							if fc.Inline && !seenFn[callee] {
 								seenFn[callee] = true
@@ -460,6 +487,28 @@ func (x *Exec) havocLoop(st *State, fn *ssa.Function, l *Loop, lc *LoopContract)
 				}
 			}
 		}
+	}
+	if hasGo {
+		st.Ghost["go.lentAny"] = x.D.Fresh("lentany", SBool)
+		for _, k := range sortedKeys(st.Ghost) {
+			if strings.HasPrefix(k, "lent:") {
+				st.Ghost[k] = x.D.Fresh("lent", "(Array Int Bool)")
+			}
+		}
+		// lent sets first created inside the loop: materialise those named by owns clauses lazily (see loopEnv)
+		st.Ghost["go.havocLent"] = "true"
+	}
+	if hasSend {
+		for _, k := range sortedKeys(st.Ghost) {
+			if strings.HasPrefix(k, "chanlen:") {
+				n := x.D.Fresh("chanlen", SInt)
+				st.Assume(fmt.Sprintf("(>= %s %s)", n, st.Ghost[k]))
+				st.Ghost[k] = n
+			}
+		}
+	}
+	if hasMayPanic {
+		st.Ghost["componentPanicked"] = x.D.Fresh("panicked", SBool)
 	}
 	// call records of earlier iterations are no longer addressable
 	st.CallLog = nil
